@@ -20,6 +20,7 @@ RULE = (
     '; pass 5: exact Kronecker multitask models (rank 0/1 task noise) and exact models with NaN targets under mask / fill: PSD, prior-posterior PSD, nested-data monotonicity, variance floors'
     '; pass 6: per-dtype variance / noise floors under a block that overrides the other dtype only'
     "; pass 8: fantasy children (tight cluster away from the data, points inside it) under both variance paths; training tensors edited in place and handed back"
+    "; pass 9: multitask kernels over a scaled data kernel (prior / lazy-joint variances and the kernel's diag path against the covariance diagonal); heteroskedastic noise (with noise_indices) at least the constraint's lower bound"
 )
 REQUIRED = ["gram_symmetric", "gram_psd", "hook:exact_gp_covariance_psd", "hook:marginal_covariance_psd", "hook:variational_covariance_psd", "prior_minus_posterior_psd", "nested_data_variance_monotone", "variance_floor", "noise_floor"]
 ASSUMPTIONS = ["rounding allowance lambda_min >= -1e-9*lambda_max in float64 (calibrated: worst legitimate case -3.3e-12, cancellation in the quadratic expansion of squared distances)",
